@@ -42,20 +42,24 @@ import (
 func TestMain(m *testing.M) {
 	code := m.Run()
 	vkit.FlushAll()
+	releasePorts()
 	os.Exit(code)
 }
 
 type sysTarget struct {
-	ID     int  `json:"id"`
-	Job    int  `json:"job"`
-	Series int  `json:"series"`
-	Down   bool `json:"down,omitempty"`
+	ID      int  `json:"id"`
+	Job     int  `json:"job"`
+	Series  int  `json:"series"`            // samples named keep_m
+	Dropped int  `json:"dropped,omitempty"` // samples named drop_m: removed by the job's metric relabel rule while it is configured
+	Down    bool `json:"down,omitempty"`
 }
 
 type sysFault struct {
 	AtCycle int    `json:"atCycle"`
-	Kind    string `json:"kind"` // killSidecar | dropTarget
-	Shard   int    `json:"shard,omitempty"`
+	Kind    string `json:"kind"` // killSidecar | dropTarget | toggleRule (the drop rule is added / removed and the coordinator reloads)
+	// PromReloadFails: the shard's Prometheus answers 500 to its next reload requests (killSidecar ignores it)
+	PromReloadFails int `json:"promReloadFails,omitempty"`
+	Shard           int `json:"shard,omitempty"`
 }
 
 type sysCase struct {
@@ -63,20 +67,94 @@ type sysCase struct {
 	Targets []sysTarget `json:"targets"`
 	MaxProc int64       `json:"maxProc"`
 	Params  bool        `json:"params"`
-	Faults  []sysFault  `json:"faults,omitempty"`
+	// DropRule: job0 and job1 start with metric_relabel_configs that drop drop_.* samples
+	DropRule bool       `json:"dropRule,omitempty"`
+	Faults   []sysFault `json:"faults,omitempty"`
+	// MaxHead: --shard.max-head-series (0 = not set).  FullShard: index+1 of a shard whose Prometheus reports a head
+	// far above MaxHead from the start (stale series of earlier life): it must never be given a target
+	MaxHead   int64 `json:"maxHead,omitempty"`
+	FullShard int   `json:"fullShard,omitempty"`
+	// FileMode: the sidecars read the same configuration file as the coordinator (--config.file) and are told to
+	// reload it when it changes, instead of getting it pushed.  SlowTarget: id of a target of job0 whose first two
+	// proxied answers pause for 1.3 s mid-body; the file says global scrape_timeout 1s, job0 scrape_timeout 3s
+	FileMode   bool `json:"fileMode,omitempty"`
+	SlowTarget int  `json:"slowTarget,omitempty"`
 }
+
+func farmBody(t *sysTarget) []byte {
+	var b bytes.Buffer
+	for i := 0; i < t.Series; i++ {
+		fmt.Fprintf(&b, "keep_m{i=\"%d\"} 1\n", i)
+	}
+	for i := 0; i < t.Dropped; i++ {
+		fmt.Fprintf(&b, "drop_m{i=\"%d\"} 1\n", i)
+	}
+	return b.Bytes()
+}
+
+const longNote = "a note with spaces that is a good deal longer than eighty characters so that a line wrapping yaml encoder folds it"
 
 type errInfra struct{ msg string }
 
 func (e errInfra) Error() string { return e.msg }
 
+// Ports for the kvass processes come from a block of 20 ports below the ephemeral range that this test process
+// claims for its lifetime (an atomically created directory under os.TempDir()): two test processes running side
+// by side can then never hand the same port to two sidecars, which a "listen on :0, close, pass the number on"
+// scheme cannot exclude while sidecars are being killed and restarted.
+var portBlock struct {
+	once sync.Once
+	base int
+	dir  string
+	next int
+}
+
+func claimPorts() {
+	root := filepath.Join(os.TempDir(), "kvass-sys-ports")
+	_ = os.MkdirAll(root, 0777)
+	start := os.Getpid() % 1000
+	for k := 0; k < 1000; k++ {
+		b := (start + k) % 1000
+		d := filepath.Join(root, fmt.Sprint(b))
+		if err := os.Mkdir(d, 0777); err != nil {
+			// a claim whose owner is gone can be taken over
+			data, rerr := ioutil.ReadFile(filepath.Join(d, "pid"))
+			pid, _ := strconv.Atoi(strings.TrimSpace(string(data)))
+			if rerr != nil || pid <= 0 || syscall.Kill(pid, 0) == nil {
+				continue
+			}
+			_ = os.RemoveAll(d)
+			if os.Mkdir(d, 0777) != nil {
+				continue
+			}
+		}
+		_ = ioutil.WriteFile(filepath.Join(d, "pid"), []byte(fmt.Sprint(os.Getpid())), 0644)
+		portBlock.base, portBlock.dir = 10000+b*20, d
+		return
+	}
+}
+
+func releasePorts() {
+	if portBlock.dir != "" {
+		_ = os.RemoveAll(portBlock.dir)
+	}
+}
+
 func freePort() int {
-	l, err := net.Listen("tcp", "127.0.0.1:0")
-	if err != nil {
+	portBlock.once.Do(claimPorts)
+	if portBlock.base == 0 {
 		return 0
 	}
-	defer l.Close()
-	return l.Addr().(*net.TCPAddr).Port
+	for k := 0; k < 20; k++ {
+		p := portBlock.base + portBlock.next%20
+		portBlock.next++
+		l, err := net.Listen("tcp", fmt.Sprintf("127.0.0.1:%d", p))
+		if err == nil {
+			_ = l.Close()
+			return p
+		}
+	}
+	return 0
 }
 
 func waitPort(addr string, d time.Duration) bool {
@@ -108,6 +186,12 @@ type shardProc struct {
 	reloads    int
 	parsedOf   string
 	parsed     []promTarget
+	parsedRule bool
+	byID       map[int]*sysTarget
+	extraHead  int      // stale series in this Prometheus' head
+	bodyBad    []string // successful scrapes whose body was not the target's
+	paused     int32    // the front answers 503: the coordinator cannot reach this shard
+	failReload int32    // the fake Prometheus answers 500 to that many further reload requests
 }
 
 type promTarget struct {
@@ -138,6 +222,12 @@ func (s *shardProc) kill() {
 	}
 }
 
+// dropRule tells whether the generated configuration this Prometheus runs drops drop_.* samples.
+func (s *shardProc) dropRule() bool {
+	s.promTargets()
+	return s.parsedRule
+}
+
 // promTargets: what a Prometheus started on the generated file scrapes (expanded by the vendored library).
 func (s *shardProc) promTargets() []promTarget {
 	data, err := ioutil.ReadFile(s.out)
@@ -147,12 +237,15 @@ func (s *shardProc) promTargets() []promTarget {
 	if string(data) == s.parsedOf {
 		return s.parsed
 	}
-	s.parsedOf, s.parsed = string(data), nil
+	s.parsedOf, s.parsed, s.parsedRule = string(data), nil, false
 	cfg, err := config.Load(string(data), false, log.NewNopLogger())
 	if err != nil {
 		return nil
 	}
 	for _, job := range cfg.ScrapeConfigs {
+		if len(job.MetricRelabelConfigs) > 0 {
+			s.parsedRule = true
+		}
 		for _, sdc := range job.ServiceDiscoveryConfigs {
 			st, ok := sdc.(pdisc.StaticConfig)
 			if !ok {
@@ -190,10 +283,21 @@ func (s *shardProc) scrapeAll() map[int]bool {
 		_ = resp.Body.Close()
 		ok := resp.StatusCode == 200 && rerr == nil
 		res[pt.tid] = ok
+		if t := s.byID[pt.tid]; t != nil && !t.Down {
+			if want := farmBody(t); resp.StatusCode == 200 && !bytes.Equal(body, want) {
+				s.mu.Lock()
+				s.bodyBad = append(s.bodyBad, fmt.Sprintf("target %d through shard %d: status 200, %d of %d bytes (read error: %v)", pt.tid, s.i, len(body), len(want), rerr))
+				s.mu.Unlock()
+			} else if resp.StatusCode != 200 {
+				s.mu.Lock()
+				s.bodyBad = append(s.bodyBad, fmt.Sprintf("target %d through shard %d: status %d although the target answers 200", pt.tid, s.i, resp.StatusCode))
+				s.mu.Unlock()
+			}
+		}
 		if ok {
 			n := 0
 			for _, line := range bytes.Split(body, []byte("\n")) {
-				if bytes.HasPrefix(line, []byte("keep_")) {
+				if bytes.HasPrefix(line, []byte("keep_")) || (bytes.HasPrefix(line, []byte("drop_")) && !s.dropRule()) {
 					n++
 				}
 			}
@@ -220,7 +324,7 @@ func (s *shardProc) scrapeAll() map[int]bool {
 func (s *shardProc) head() int {
 	s.mu.Lock()
 	defer s.mu.Unlock()
-	n := 7 // a Prometheus always has a few series of its own: its head count is above the sum over the targets
+	n := 7 + s.extraHead // a Prometheus always has a few series of its own: its head count is above the sum over the targets
 	for _, v := range s.ingested {
 		n += v
 	}
@@ -258,11 +362,48 @@ type held struct {
 	State  string `json:"TargetState"`
 	Health string `json:"health"`
 	Times  uint64 `json:"ScrapeTimes"`
+	Series int64  `json:"series"`
+	Total  int64  `json:"totalSeries"`
 }
 
-func writeConfig(path, farmHost string, c *sysCase, dropped map[int]bool) string {
+type snapshot struct {
+	targets string // canonical JSON of GET /api/v1/shard/targets/
+	idle    string
+}
+
+func snapshotOf(s *shardProc) (*snapshot, error) {
+	var ts map[string][]map[string]interface{}
+	if err := getJSON(fmt.Sprintf("http://127.0.0.1:%d/api/v1/shard/targets/", s.api), &ts); err != nil {
+		return nil, err
+	}
+	for job, l := range ts {
+		if len(l) == 0 {
+			delete(ts, job)
+			continue
+		}
+		sort.Slice(l, func(a, b int) bool { return fmt.Sprint(l[a]["hash"]) < fmt.Sprint(l[b]["hash"]) })
+	}
+	b, _ := json.Marshal(ts)
+	var ri struct {
+		IdleStartAt *time.Time `json:"IdleStartAt"`
+	}
+	if err := getJSON(fmt.Sprintf("http://127.0.0.1:%d/api/v1/shard/runtimeinfo/", s.api), &ri); err != nil {
+		return nil, err
+	}
+	sn := &snapshot{targets: string(b)}
+	if ri.IdleStartAt != nil {
+		sn.idle = ri.IdleStartAt.UTC().Format(time.RFC3339Nano)
+	}
+	return sn, nil
+}
+
+func writeConfig(path, farmHost string, c *sysCase, dropped map[int]bool, rule bool) string {
 	var b strings.Builder
-	b.WriteString("global:\n  scrape_interval: 15s\n  scrape_timeout: 10s\nscrape_configs:\n")
+	if c.SlowTarget != 0 {
+		b.WriteString("global:\n  scrape_interval: 15s\n  scrape_timeout: 1s\nscrape_configs:\n")
+	} else {
+		b.WriteString("global:\n  scrape_interval: 15s\n  scrape_timeout: 10s\nscrape_configs:\n")
+	}
 	for j := 0; j < 2; j++ {
 		any := false
 		for _, t := range c.Targets {
@@ -274,15 +415,21 @@ func writeConfig(path, farmHost string, c *sysCase, dropped map[int]bool) string
 			continue
 		}
 		fmt.Fprintf(&b, "- job_name: job%d\n", j)
+		if c.SlowTarget != 0 && j == 0 {
+			b.WriteString("  scrape_timeout: 3s\n")
+		}
 		if c.Params && j == 0 {
 			b.WriteString("  params:\n    module: [m0]\n")
+		}
+		if rule {
+			b.WriteString("  metric_relabel_configs:\n  - source_labels: [__name__]\n    regex: drop_.*\n    action: drop\n")
 		}
 		b.WriteString("  static_configs:\n")
 		for _, t := range c.Targets {
 			if t.Job != j || dropped[t.ID] {
 				continue
 			}
-			fmt.Fprintf(&b, "  - targets: ['%s']\n    labels:\n      __metrics_path__: /t/%d/metrics\n      tid: \"%d\"\n", farmHost, t.ID, t.ID)
+			fmt.Fprintf(&b, "  - targets: ['%s']\n    labels:\n      __metrics_path__: /t/%d/metrics\n      tid: \"%d\"\n      note: \"%s\"\n", farmHost, t.ID, t.ID, longNote)
 		}
 	}
 	_ = ioutil.WriteFile(path, []byte(b.String()), 0644)
@@ -301,7 +448,12 @@ func runSys(c *sysCase) (vs []vkit.Violation, classes []string, infra error) {
 		vs = append(vs, vkit.Violation{Key: key, Msg: fmt.Sprintf(f, a...)})
 	}
 	dir, _ := ioutil.TempDir("", "kvass-sys-")
-	defer os.RemoveAll(dir)
+	defer func() {
+		if keep := os.Getenv("VERIF_SYS_KEEP"); keep != "" {
+			_ = exec.Command("cp", "-r", dir, keep).Run()
+		}
+		_ = os.RemoveAll(dir)
+	}()
 
 	// ---- targets
 	byID := map[int]*sysTarget{}
@@ -310,6 +462,7 @@ func runSys(c *sysCase) (vs []vkit.Violation, classes []string, infra error) {
 	}
 	var farmMu sync.Mutex
 	var farmURIs []string
+	slowServed := 0
 	farm := httptest.NewServer(http.HandlerFunc(func(w http.ResponseWriter, r *http.Request) {
 		farmMu.Lock()
 		farmURIs = append(farmURIs, r.URL.RequestURI())
@@ -326,9 +479,24 @@ func runSys(c *sysCase) (vs []vkit.Violation, classes []string, infra error) {
 			return
 		}
 		w.Header().Set("Content-Type", "text/plain; version=0.0.4")
-		for i := 0; i < t.Series; i++ {
-			fmt.Fprintf(w, "keep_m{i=\"%d\"} 1\n", i)
+		body := farmBody(t)
+		if c.SlowTarget == id && r.Header.Get("Origin-Proxy") == "" && r.Header.Get("X-Verif-Probe") == "" {
+			farmMu.Lock()
+			slowServed++
+			n := slowServed
+			farmMu.Unlock()
+			if n >= 2 && n <= 3 { // the first request is the explorer's probe
+				half := len(body) / 2
+				_, _ = w.Write(body[:half])
+				if fl, ok := w.(http.Flusher); ok {
+					fl.Flush()
+				}
+				time.Sleep(1300 * time.Millisecond)
+				_, _ = w.Write(body[half:])
+				return
+			}
 		}
+		_, _ = w.Write(body)
 	}))
 	defer farm.Close()
 	farmHost := strings.TrimPrefix(farm.URL, "http://")
@@ -346,10 +514,21 @@ func runSys(c *sysCase) (vs []vkit.Violation, classes []string, infra error) {
 			}
 		}
 	}()
+	cfgFile := filepath.Join(dir, "prometheus.yml")
+	dropped := map[int]bool{}
+	rule := c.DropRule
+	cfgText := writeConfig(cfgFile, farmHost, c, dropped, rule)
+	sidecarCfg := ""
+	if c.FileMode {
+		sidecarCfg = cfgFile
+	}
 	var static strings.Builder
 	static.WriteString("replicas:\n- shards:\n")
 	for i := 0; i < c.Shards; i++ {
-		s := &shardProc{i: i, dir: filepath.Join(dir, fmt.Sprintf("shard%d", i)), api: freePort(), proxy: freePort(), ingested: map[uint64]int{}}
+		s := &shardProc{i: i, dir: filepath.Join(dir, fmt.Sprintf("shard%d", i)), api: freePort(), proxy: freePort(), ingested: map[uint64]int{}, byID: byID}
+		if c.FullShard == i+1 && c.MaxHead != 0 {
+			s.extraHead = int(2*c.MaxHead) + 50
+		}
 		_ = os.MkdirAll(filepath.Join(s.dir, "store"), 0755)
 		s.out = filepath.Join(s.dir, "prometheus_injected.yaml")
 		s.logf = filepath.Join(s.dir, "sidecar.log")
@@ -357,6 +536,11 @@ func runSys(c *sysCase) (vs []vkit.Violation, classes []string, infra error) {
 		s.prom = httptest.NewServer(http.HandlerFunc(func(w http.ResponseWriter, r *http.Request) {
 			switch {
 			case r.URL.Path == "/-/reload":
+				if atomic.LoadInt32(&sp.failReload) > 0 {
+					atomic.AddInt32(&sp.failReload, -1)
+					http.Error(w, "reload failed (scripted)", 500)
+					return
+				}
 				sp.mu.Lock()
 				sp.reloads++
 				sp.mu.Unlock()
@@ -375,10 +559,14 @@ func runSys(c *sysCase) (vs []vkit.Violation, classes []string, infra error) {
 			if r.Method == "GET" && strings.HasPrefix(r.URL.Path, "/api/v1/shard/targets/status") {
 				atomic.AddInt64(&sp.statusGets, 1)
 			}
+			if atomic.LoadInt32(&sp.paused) != 0 {
+				http.Error(w, "shard unreachable (scripted)", 503)
+				return
+			}
 			rp.ServeHTTP(w, r)
 		}))
 		s.args = []string{"sidecar", "--web.api-addr", fmt.Sprintf("127.0.0.1:%d", s.api), "--web.proxy-addr", fmt.Sprintf("127.0.0.1:%d", s.proxy),
-			"--prometheus.url", s.prom.URL, "--config.file", "", "--config.output-file", s.out, "--store.path", filepath.Join(s.dir, "store"),
+			"--prometheus.url", s.prom.URL, "--config.file", sidecarCfg, "--config.output-file", s.out, "--store.path", filepath.Join(s.dir, "store"),
 			"--inject.proxy", fmt.Sprintf("http://127.0.0.1:%d", s.proxy)}
 		shards = append(shards, s)
 		if err := s.start(bin); err != nil {
@@ -390,14 +578,11 @@ func runSys(c *sysCase) (vs []vkit.Violation, classes []string, infra error) {
 	_ = ioutil.WriteFile(staticFile, []byte(static.String()), 0644)
 
 	// ---- coordinator
-	cfgFile := filepath.Join(dir, "prometheus.yml")
-	dropped := map[int]bool{}
-	cfgText := writeConfig(cfgFile, farmHost, c, dropped)
 	cport := freePort()
 	clog, _ := os.Create(filepath.Join(dir, "coordinator.log"))
 	coord := exec.Command(bin, "coordinator", "--shard.type", "static", "--shard.static-file", staticFile, "--config.file", cfgFile,
 		"--coordinator.interval", "40ms", "--web.address", fmt.Sprintf("127.0.0.1:%d", cport),
-		"--shard.max-process-series", fmt.Sprint(c.MaxProc), "--sd.init-timeout", "20s")
+		"--shard.max-process-series", fmt.Sprint(c.MaxProc), "--sd.init-timeout", "20s", "--shard.max-head-series", fmt.Sprint(c.MaxHead))
 	coord.Stdout, coord.Stderr = clog, clog
 	coord.SysProcAttr = &syscall.SysProcAttr{Pdeathsig: syscall.SIGKILL}
 	if err := coord.Start(); err != nil {
@@ -414,6 +599,18 @@ func runSys(c *sysCase) (vs []vkit.Violation, classes []string, infra error) {
 		return string(b)
 	}
 
+	reloadSidecars := func() {
+		if !c.FileMode {
+			return
+		}
+		// what the config-reloader container does next to each Prometheus when the mounted file changes
+		for _, s := range shards {
+			resp, err := http.Post(fmt.Sprintf("http://127.0.0.1:%d/-/reload/", s.api), "application/json", nil)
+			if err == nil {
+				_ = resp.Body.Close()
+			}
+		}
+	}
 	// ---- drive: one scrape round per observed coordinator cycle
 	lastFault := 0
 	for _, f := range c.Faults {
@@ -422,11 +619,15 @@ func runSys(c *sysCase) (vs []vkit.Violation, classes []string, infra error) {
 		}
 	}
 	seen := atomic.LoadInt64(&shards[0].statusGets)
+	fullReported := false
 	stable := 0
 	var why []string
 	converged := false
 	cycles := 0
-	for k := 1; k <= maxCycles; k++ {
+	// the Prometheus discovery manager publishes changes at most every 5 s: the cycle bound only starts to
+	// count once a configuration change has had 12 s of wall-clock time to arrive
+	lastReload := time.Now()
+	for k := 1; k <= maxCycles || time.Since(lastReload) < 12*time.Second; k++ {
 		// wait for two more status requests on shard 0: at least one whole cycle lies in between
 		deadline := time.Now().Add(20 * time.Second)
 		for atomic.LoadInt64(&shards[0].statusGets) < seen+2 {
@@ -454,11 +655,47 @@ func runSys(c *sysCase) (vs []vkit.Violation, classes []string, infra error) {
 			switch f.Kind {
 			case "killSidecar":
 				s := shards[f.Shard%len(shards)]
+				// the coordinator cannot reach the shard while it is being replaced, so what the new process
+				// reports right after its start is what it resumed from its store
+				atomic.StoreInt32(&s.paused, 1)
+				time.Sleep(60 * time.Millisecond)
+				before, errB := snapshotOf(s)
 				s.kill()
 				if err := s.start(bin); err != nil {
 					return nil, nil, errInfra{err.Error()}
 				}
+				after, errA := snapshotOf(s)
+				if errB == nil && errA == nil {
+					if before.targets != after.targets {
+						add("C09/sys/restart-assignment-differs", "shard %d was killed and restarted on its store: it acknowledged\n%s\nand resumed\n%s", s.i, before.targets, after.targets)
+					}
+					if before.idle != after.idle {
+						add("C09/sys/restart-idle-since-differs", "shard %d was killed and restarted on its store: idle since %q before, %q after", s.i, before.idle, after.idle)
+					}
+					if before.idle != "" {
+						classes = append(classes, "sys/fault/idle-sidecar-restarted")
+					}
+					if before.targets != "{}" {
+						classes = append(classes, "sys/fault/loaded-sidecar-restarted")
+					}
+				}
+				atomic.StoreInt32(&s.paused, 0)
 				classes = append(classes, "sys/fault/sidecar-killed-and-restarted")
+			case "toggleRule":
+				rule = !rule
+				if f.PromReloadFails > 0 {
+					atomic.StoreInt32(&shards[f.Shard%len(shards)].failReload, int32(f.PromReloadFails))
+					classes = append(classes, "sys/fault/prometheus-reload-fails")
+				}
+				cfgText = writeConfig(cfgFile, farmHost, c, dropped, rule)
+				lastReload = time.Now()
+				resp, err := http.Post(fmt.Sprintf("http://127.0.0.1:%d/-/reload", cport), "application/json", nil)
+				if err != nil {
+					return nil, nil, errInfra{"coordinator reload: " + err.Error()}
+				}
+				_ = resp.Body.Close()
+				reloadSidecars()
+				classes = append(classes, "sys/fault/coordinator-reload-changes-metric-relabeling")
 			case "dropTarget":
 				// the last configured target disappears from the file; the coordinator is told to reload
 				for i := len(c.Targets) - 1; i >= 0; i-- {
@@ -467,7 +704,8 @@ func runSys(c *sysCase) (vs []vkit.Violation, classes []string, infra error) {
 						break
 					}
 				}
-				cfgText = writeConfig(cfgFile, farmHost, c, dropped)
+				cfgText = writeConfig(cfgFile, farmHost, c, dropped, rule)
+				lastReload = time.Now()
 				resp, err := http.Post(fmt.Sprintf("http://127.0.0.1:%d/-/reload", cport), "application/json", nil)
 				if err != nil {
 					return nil, nil, errInfra{"coordinator reload: " + err.Error()}
@@ -476,6 +714,7 @@ func runSys(c *sysCase) (vs []vkit.Violation, classes []string, infra error) {
 				if resp.StatusCode != 200 {
 					add("C17/sys/reload-refused", "the coordinator answered %d to a reload of a valid file", resp.StatusCode)
 				}
+				reloadSidecars()
 				classes = append(classes, "sys/fault/coordinator-reload-drops-a-target")
 			}
 		}
@@ -511,16 +750,26 @@ func runSys(c *sysCase) (vs []vkit.Violation, classes []string, infra error) {
 				}
 			}
 		}
+		if c.FullShard != 0 && c.MaxHead != 0 {
+			for tid, hs := range holders {
+				for _, h := range hs {
+					if h == fmt.Sprintf("shard %d", c.FullShard-1) && !fullReported {
+						fullReported = true
+						add("C04/sys/head-limit", "shard %d reports %d head series from the start (limit --shard.max-head-series=%d) but was given target %d", c.FullShard-1, shards[c.FullShard-1].head(), c.MaxHead, tid)
+					}
+				}
+			}
+		}
 		for _, t := range c.Targets {
 			switch {
 			case dropped[t.ID]:
 				if len(holders[t.ID]) > 0 {
 					why = append(why, fmt.Sprintf("target %d is no longer configured but still held by %v", t.ID, holders[t.ID]))
 				}
-			case t.Down || int64(t.Series) >= c.MaxProc:
+			case t.Down || int64(t.Series+t.Dropped) >= c.MaxProc:
 				// not eligible: a down target has no estimate, an oversize one fits nowhere
 				if !t.Down && len(holders[t.ID]) > 0 {
-					why = append(why, fmt.Sprintf("oversize target %d (series %d, limit %d) is assigned to %v", t.ID, t.Series, c.MaxProc, holders[t.ID]))
+					why = append(why, fmt.Sprintf("oversize target %d (series %d, limit %d) is assigned to %v", t.ID, t.Series+t.Dropped, c.MaxProc, holders[t.ID]))
 				}
 			case len(holders[t.ID]) != 1:
 				why = append(why, fmt.Sprintf("eligible target %d is held by %d shards %v", t.ID, len(holders[t.ID]), holders[t.ID]))
@@ -562,7 +811,24 @@ func runSys(c *sysCase) (vs []vkit.Violation, classes []string, infra error) {
 		sum := int64(0)
 		for _, pt := range s.promTargets() {
 			if t := byID[pt.tid]; t != nil && !t.Down {
-				sum += int64(t.Series)
+				sum += int64(t.Series + t.Dropped)
+			}
+		}
+		// per target: series = samples the current rules keep, totalSeries = samples in the payload
+		var st map[uint64]*held
+		if err := getJSON(fmt.Sprintf("http://127.0.0.1:%d/api/v1/shard/targets/status/", s.api), &st); err == nil {
+			for _, pt := range s.promTargets() {
+				t, e := byID[pt.tid], st[pt.hash]
+				if t == nil || e == nil || t.Down {
+					continue
+				}
+				wantSeries := int64(t.Series)
+				if !rule {
+					wantSeries += int64(t.Dropped)
+				}
+				if e.Series != wantSeries || e.Total != int64(t.Series+t.Dropped) {
+					add("C14/sys/target-series", "shard %d reports series %d / total %d for target %d, which exposes %d samples of which the configured rules keep %d (drop rule configured: %v)", i, e.Series, e.Total, pt.tid, t.Series+t.Dropped, wantSeries, rule)
+				}
 			}
 		}
 		if sum >= c.MaxProc {
@@ -586,6 +852,22 @@ func runSys(c *sysCase) (vs []vkit.Violation, classes []string, infra error) {
 		if err := getJSON(fmt.Sprintf("http://127.0.0.1:%d/api/v1/status/config/", s.api), &cfg); err == nil && cfg.YAML != "" {
 			_ = cfg
 		}
+	}
+	for _, s := range shards {
+		s.mu.Lock()
+		if len(s.bodyBad) > 0 {
+			add("C12/sys/proxied-scrape", "%d proxied scrape(s) of reachable targets did not deliver the target's answer, first: %s", len(s.bodyBad), s.bodyBad[0])
+		}
+		s.mu.Unlock()
+	}
+	if c.FileMode {
+		classes = append(classes, "sys/sidecars-read-the-file-themselves")
+	}
+	if c.SlowTarget != 0 {
+		classes = append(classes, "sys/slow-target-under-job-level-timeout")
+	}
+	if c.FullShard != 0 && c.MaxHead != 0 {
+		classes = append(classes, "sys/shard-with-full-head")
 	}
 	if len(hashes) != 1 || hashes[""] {
 		add("C16/sys/config-hash", "the shards report configuration hashes %v after convergence (one file, pushed by the coordinator)", hashes)
@@ -622,33 +904,54 @@ func runSys(c *sysCase) (vs []vkit.Violation, classes []string, infra error) {
 }
 
 func genSys(t *rapid.T, faults bool) *sysCase {
-	c := &sysCase{Shards: rapid.IntRange(2, 4).Draw(t, "shards"), Params: rapid.Bool().Draw(t, "params")}
+	c := &sysCase{Shards: rapid.IntRange(2, 4).Draw(t, "shards"), Params: rapid.Bool().Draw(t, "params"), DropRule: rapid.Bool().Draw(t, "dropRule")}
 	c.MaxProc = int64(rapid.SampledFrom([]int{40, 60, 100}).Draw(t, "maxProc"))
 	n := rapid.IntRange(2, 9).Draw(t, "targets")
-	budget := int64(c.Shards) * c.MaxProc * 6 / 10 // leave room: a static shard manager cannot scale up
+	// leave room: a static shard manager cannot scale up, and one shard may start with a full head
+	budget := int64(c.Shards-1) * c.MaxProc * 6 / 10
 	used := int64(0)
 	for i := 0; i < n; i++ {
 		tg := sysTarget{ID: i + 1, Job: rapid.IntRange(0, 1).Draw(t, fmt.Sprintf("t%d-job", i))}
 		tg.Series = rapid.IntRange(1, int(c.MaxProc)/2).Draw(t, fmt.Sprintf("t%d-series", i))
+		tg.Dropped = rapid.IntRange(0, 4).Draw(t, fmt.Sprintf("t%d-dropped", i))
 		switch rapid.IntRange(0, 11).Draw(t, fmt.Sprintf("t%d-kind", i)) {
 		case 0:
 			tg.Down = true
 		case 1:
 			tg.Series = int(c.MaxProc) + rapid.IntRange(0, 10).Draw(t, fmt.Sprintf("t%d-over", i)) // fits nowhere
 		}
-		if !tg.Down && int64(tg.Series) < c.MaxProc {
-			if used+int64(tg.Series) > budget {
+		if !tg.Down && int64(tg.Series+tg.Dropped) < c.MaxProc {
+			if used+int64(tg.Series+tg.Dropped) > budget {
 				tg.Series = 1
 			}
-			used += int64(tg.Series)
+			used += int64(tg.Series + tg.Dropped)
 		}
 		c.Targets = append(c.Targets, tg)
+	}
+	switch rapid.IntRange(0, 3).Draw(t, "headLimit") {
+	case 0:
+		c.MaxHead = 2 * c.MaxProc
+	case 1:
+		c.MaxHead = 2 * c.MaxProc
+		if c.Shards >= 3 {
+			c.FullShard = rapid.IntRange(1, c.Shards).Draw(t, "fullShard")
+		}
+	}
+	c.FileMode = rapid.IntRange(0, 2).Draw(t, "fileMode") == 0
+	if c.FileMode && rapid.IntRange(0, 1).Draw(t, "slow") == 0 {
+		for _, tg := range c.Targets {
+			if tg.Job == 0 && !tg.Down && int64(tg.Series+tg.Dropped) < c.MaxProc {
+				c.SlowTarget = tg.ID
+				break
+			}
+		}
 	}
 	if faults {
 		nf := rapid.IntRange(1, 3).Draw(t, "faults")
 		for i := 0; i < nf; i++ {
 			c.Faults = append(c.Faults, sysFault{AtCycle: rapid.IntRange(1, 25).Draw(t, fmt.Sprintf("f%d-at", i)),
-				Kind: rapid.SampledFrom([]string{"killSidecar", "killSidecar", "dropTarget"}).Draw(t, fmt.Sprintf("f%d-kind", i)), Shard: rapid.IntRange(0, 3).Draw(t, fmt.Sprintf("f%d-shard", i))})
+				Kind: rapid.SampledFrom([]string{"killSidecar", "killSidecar", "dropTarget", "toggleRule"}).Draw(t, fmt.Sprintf("f%d-kind", i)), Shard: rapid.IntRange(0, 3).Draw(t, fmt.Sprintf("f%d-shard", i)),
+				PromReloadFails: rapid.SampledFrom([]int{0, 0, 1, 2}).Draw(t, fmt.Sprintf("f%d-reloadFails", i))})
 		}
 	}
 	return c
@@ -658,7 +961,7 @@ var sysRule = "rapid-generated process-level runs: the real kvass coordinator (s
 
 func sysTest(t *testing.T, prop, test string, faults bool) {
 	rec := vkit.Rec(prop, "exploration", sysRule)
-	rec.Assume("process-level runs depend on the scheduler: a run in which no coordinator cycle can be observed for 20 s is inconclusive (exit 2), never a violation; convergence is bounded in coordinator cycles, not in wall-clock time")
+	rec.Assume("process-level runs depend on the scheduler: a run in which no coordinator cycle can be observed for 20 s is inconclusive (exit 2), never a violation; convergence is bounded in coordinator cycles (90), counted only after a configuration change has had 12 s to pass through the Prometheus discovery manager")
 	rapid.Check(t, func(t *rapid.T) {
 		c := genSys(t, faults)
 		t0 := time.Now()
@@ -693,6 +996,8 @@ func TestC04Sys(t *testing.T) { sysTest(t, "C04", "TestC04Sys", false) }
 func TestC14Sys(t *testing.T) { sysTest(t, "C14", "TestC14Sys", false) }
 func TestC16Sys(t *testing.T) { sysTest(t, "C16", "TestC16Sys", false) }
 func TestC02Sys(t *testing.T) { sysTest(t, "C02", "TestC02Sys", false) }
+func TestC12Sys(t *testing.T) { sysTest(t, "C12", "TestC12Sys", false) }
+func TestC09Sys(t *testing.T) { sysTest(t, "C09", "TestC09Sys", true) }
 
 func replaySys(t *testing.T, prop, test string) {
 	rec := vkit.Rec(prop, "exploration", sysRule)
@@ -721,3 +1026,5 @@ func TestReplayC04Sys(t *testing.T) { replaySys(t, "C04", "TestC04Sys") }
 func TestReplayC14Sys(t *testing.T) { replaySys(t, "C14", "TestC14Sys") }
 func TestReplayC16Sys(t *testing.T) { replaySys(t, "C16", "TestC16Sys") }
 func TestReplayC02Sys(t *testing.T) { replaySys(t, "C02", "TestC02Sys") }
+func TestReplayC12Sys(t *testing.T) { replaySys(t, "C12", "TestC12Sys") }
+func TestReplayC09Sys(t *testing.T) { replaySys(t, "C09", "TestC09Sys") }
